@@ -2,6 +2,7 @@ import Tw.Model.Map
 import Tw.Model.Inflate
 import Tw.Drv.Util
 import Tw.Drv.Datafile
+import Tw.Model.MapWriter
 
 /-! Line protocol for domain `map` (implementation side: `harness/src/d_map.rs`).
 
@@ -227,6 +228,11 @@ def handle (toks : List String) : String :=
     match parseNat st, parseHex h with
     | some st, some bs => fopenLine bs st
     | _, _ => "bad-op"
+  | ["msample", k] =>
+    -- the file the map writer model produces for a sample map (to regenerate corpus/map/written-maps.txt)
+    match parseNat k with
+    | some k => s!"mopen {toHex (writeMap Tw.Inflate.deflateStored (sampleMap k))}"
+    | none => "bad-op"
   | ["mopen", h] =>
     match parseHex h with
     | some bs => openLine bs
